@@ -223,6 +223,123 @@ def resolve_self_aliases(modules):
     return count
 
 
+def desugar_suppress(modules):
+    """`with contextlib.suppress(E1, E2): B` (one item, no `as`) is analysed as `try: B` / `except (E1, E2): pass` - which is what it does: the
+    exit of the context manager swallows exactly the exceptions an except clause of those types would catch.  Without this the control-flow graph
+    would treat the block as transparent to exceptions: a swallowing `with` added by a change would go unnoticed and a try/except/pass modernised
+    into this form would be reported as letting its exceptions escape.  Returns the number of rewritten statements."""
+    count = 0
+    for mod in modules.values():
+        mod_alias, fn_alias = set(), set()
+        for n in ast.walk(mod.tree):
+            if isinstance(n, ast.Import):
+                mod_alias |= {(a.asname or a.name) for a in n.names if a.name == 'contextlib'}
+            if isinstance(n, ast.ImportFrom) and n.module == 'contextlib' and not n.level:
+                fn_alias |= {(a.asname or a.name) for a in n.names if a.name == 'suppress'}
+        if not (mod_alias or fn_alias):
+            continue
+        for st in ast.walk(mod.tree):
+            if not (isinstance(st, ast.With) and len(st.items) == 1 and st.items[0].optional_vars is None):
+                continue
+            call = st.items[0].context_expr
+            if not (isinstance(call, ast.Call) and not call.keywords and not any(isinstance(a, ast.Starred) for a in call.args)):
+                continue
+            f = call.func
+            if not ((isinstance(f, ast.Name) and f.id in fn_alias) or
+                    (isinstance(f, ast.Attribute) and f.attr == 'suppress' and isinstance(f.value, ast.Name) and f.value.id in mod_alias)):
+                continue
+            pos = {k: getattr(st, k) for k in ('lineno', 'col_offset', 'end_lineno', 'end_col_offset') if hasattr(st, k)}
+            hpos = dict(pos, end_lineno=pos['lineno'], end_col_offset=pos['col_offset'] + 4)
+            if not call.args:
+                typ = ast.Tuple(elts=[], ctx=ast.Load(), **hpos)        # suppress() swallows nothing
+            elif len(call.args) == 1:
+                typ = call.args[0]
+            else:
+                typ = ast.Tuple(elts=list(call.args), ctx=ast.Load(), **hpos)
+            handler = ast.ExceptHandler(type=typ, name=None, body=[ast.Pass(**hpos)], **hpos)
+            body = st.body
+            st.__class__ = ast.Try
+            st.__dict__.clear()
+            st.__dict__.update(dict(body=body, handlers=[handler], orelse=[], finalbody=[], **pos))
+            count += 1
+    return count
+
+
+def normalise_updates(modules):
+    """`x = x + 1` (target and left operand the same side-effect-free name or attribute chain, right operand a numeric constant) is analysed as
+    `x += 1`: for numbers the two are the same statement, and the counting rules are written for the augmented form.  Returns the number of
+    rewritten statements."""
+    count = 0
+    for mod in modules.values():
+        for st in ast.walk(mod.tree):
+            if not (isinstance(st, ast.Assign) and len(st.targets) == 1 and isinstance(st.value, ast.BinOp)):
+                continue
+            tgt, v = st.targets[0], st.value
+            if not (isinstance(tgt, (ast.Name, ast.Attribute)) and dotted(tgt) and dotted(v.left) == dotted(tgt)):
+                continue
+            if not (isinstance(v.right, ast.Constant) and isinstance(v.right.value, (int, float)) and not isinstance(v.right.value, bool)):
+                continue
+            pos = {k: getattr(st, k) for k in ('lineno', 'col_offset', 'end_lineno', 'end_col_offset') if hasattr(st, k)}
+            st.__class__ = ast.AugAssign
+            st.__dict__.clear()
+            st.__dict__.update(dict(target=tgt, op=v.op, value=v.right, **pos))
+            count += 1
+    return count
+
+
+_SWAP = {ast.Lt: ast.Gt, ast.Gt: ast.Lt, ast.LtE: ast.GtE, ast.GtE: ast.LtE, ast.Eq: ast.Eq, ast.NotEq: ast.NotEq, ast.Is: ast.Is, ast.IsNot: ast.IsNot}
+
+
+def normalise_comparisons(modules):
+    """A comparison written constant-first (`None is x`, `0 == timeout`, `'wait' == cmd`) is analysed in the usual order (`x is None`, ...): the rules
+    compare tests by their negation-free text.  Only single-operator comparisons whose left operand is a literal constant and whose right operand is
+    not are rewritten.  Returns the number of rewritten comparisons."""
+    count = 0
+    for mod in modules.values():
+        for n in ast.walk(mod.tree):
+            if isinstance(n, ast.Compare) and len(n.ops) == 1 and type(n.ops[0]) in _SWAP and isinstance(n.left, ast.Constant) and \
+                    not isinstance(n.comparators[0], ast.Constant):
+                n.left, n.comparators, n.ops = n.comparators[0], [n.left], [_SWAP[type(n.ops[0])]()]
+                count += 1
+    return count
+
+
+def _leaves(stmts):
+    """every way through the statement list ends in return / raise / continue / break (syntactic)"""
+    if not stmts:
+        return False
+    last = stmts[-1]
+    if isinstance(last, (ast.Return, ast.Raise, ast.Continue, ast.Break)):
+        return True
+    if isinstance(last, ast.If):
+        return _leaves(last.body) and _leaves(last.orelse)
+    return False
+
+
+def hoist_else_after_leave(modules):
+    """`if c: ...; return` / `else: rest` is analysed as the guard clause `if c: ...; return` followed by `rest` (same control flow; `raise`,
+    `continue` and `break` likewise): rules that look at the statements of a block see one form however the author nested it.  Returns the number
+    of hoisted else blocks."""
+    count = 0
+    for mod in modules.values():
+        changed = True
+        while changed:
+            changed = False
+            for parent in ast.walk(mod.tree):
+                for field in ('body', 'orelse', 'finalbody'):
+                    lst = getattr(parent, field, None)
+                    if not isinstance(lst, list):
+                        continue
+                    for i, st in enumerate(lst):
+                        if isinstance(st, ast.If) and st.orelse and _leaves(st.body):
+                            rest, st.orelse = st.orelse, []
+                            lst[i + 1:i + 1] = rest
+                            count += 1
+                            changed = True
+                            break
+    return count
+
+
 class Module:
     def __init__(self, name, path, relpath, src):
         self.name = name
@@ -425,6 +542,10 @@ class Program:
         for m in MANDATORY_MODULES:
             if f'{self.package}.{m}' not in self.modules:
                 raise AnalysisError(f'mandatory module {self.package}.{m} is missing')
+        self.suppress_desugared = desugar_suppress(self.modules)
+        self.updates_normalised = normalise_updates(self.modules)
+        self.comparisons_normalised = normalise_comparisons(self.modules)
+        self.else_hoisted = hoist_else_after_leave(self.modules)
         self.absorbed = absorb_private_helpers(self.modules)
         self.aliases_resolved = resolve_self_aliases(self.modules)
         for mod in self.modules.values():
